@@ -313,13 +313,13 @@ func (fr *frame) applyContract(con *Contract, key string, args []SV, cur *State,
 	for _, cl := range con.Clauses {
 		if cl.Kind == "requires" {
 			i++
-			vc.oblige("pre", fmt.Sprintf("%s.pre%d", tag, i), fr.g, vc.evalBool(cl.Expr, env))
+			vc.oblige("pre", fmt.Sprintf("%s.pre%d", tag, i), fr.g, vc.evalGoal(cl.Expr, env))
 		}
 	}
 	for _, inv := range vc.eng.invariantsOf(con) {
 		ienv := *env
 		ienv.pkg = vc.eng.typesPkg[inv.Pkg]
-		vc.oblige("pre", fmt.Sprintf("%s.inv.%s", tag, inv.Name), fr.g, vc.evalBool(inv.Expr, &ienv))
+		vc.oblige("pre", fmt.Sprintf("%s.inv.%s", tag, inv.Name), fr.g, vc.evalGoal(inv.Expr, &ienv))
 	}
 	// declared panics
 	var noPanic []T
@@ -372,13 +372,13 @@ func (fr *frame) applyContract(con *Contract, key string, args []SV, cur *State,
 	}
 	for _, cl := range con.Clauses {
 		if cl.Kind == "ensures" {
-			vc.assume(implies(fr.g, vc.evalBool(cl.Expr, post)))
+			vc.assume(implies(fr.g, vc.evalHyp(cl.Expr, post, fr.g)))
 		}
 	}
 	for _, inv := range vc.eng.invariantsOf(con) {
 		ienv := *post
 		ienv.pkg = vc.eng.typesPkg[inv.Pkg]
-		vc.assume(implies(fr.g, vc.evalBool(inv.Expr, &ienv)))
+		vc.assume(implies(fr.g, vc.evalHyp(inv.Expr, &ienv, fr.g)))
 	}
 	fr.nameHeaps(cur)
 	if rts == nil {
@@ -484,9 +484,12 @@ func (fr *frame) appendOp(args []SV, cur *State, rtyp types.Type) SV {
 	es := vc.sortOf(st.Elem())
 	hn := vc.arrHeap(st.Elem())
 	h := vc.heapGet(cur, hn)
-	sl, tl := app("s_len", s.t), app("s_len", t.t)
+	sl, tl := sliceAcc("s_len", s.t), sliceAcc("s_len", t.t)
 	n := vc.nameTerm2("appn", add(sl, tl), "Int")
 	fits := le(n, app("s_cap", s.t))
+	if len(vc.splits) < 3 {
+		vc.splits = append(vc.splits, fits)
+	}
 	srow := sel(h, app("s_ref", s.t))
 	trow := sel(h, app("s_ref", t.t))
 	newRef := cur.alloc
@@ -544,4 +547,15 @@ func (fr *frame) copyOp(args []SV, cur *State, rtyp types.Type) SV {
 	vc.assume("(forall ((i Int)) (! (= (select " + nr + " i) (ite (and (<= " + doff + " i) (< i (+ " + doff + " " + n + "))) (select " + srow + " (+ " + soff + " (- i " + doff + "))) (select " + drow + " i))) :pattern ((select " + nr + " i))))")
 	vc.heapSet(cur, hn, vc.nameTerm2("h_"+hn, ite(lt("0", n), sto(h, app("s_ref", d.t), nr), h), vc.heapSort[hn]))
 	return SV{t: n, typ: rtyp}
+}
+
+// sliceAcc simplifies an accessor applied to a literal (mk_slice ref off len cap).
+func sliceAcc(acc string, t T) T {
+	if strings.HasPrefix(t, "(mk_slice ") {
+		if sx, err := parseSx(t); err == nil && len(sx) == 1 && len(sx[0].List) == 5 {
+			idx := map[string]int{"s_ref": 1, "s_off": 2, "s_len": 3, "s_cap": 4}[acc]
+			return sx[0].List[idx].String()
+		}
+	}
+	return app(acc, t)
 }
